@@ -29,6 +29,7 @@ import (
 	"github.com/prometheus/prometheus/discovery"
 	"tkestack.io/kvass/pkg/prom"
 	"tkestack.io/kvass/pkg/target"
+	"tkestack.io/kvass/pkg/utils/types"
 
 	"github.com/prometheus/prometheus/model/relabel"
 
@@ -172,45 +173,45 @@ func (i *Injector) injectSelfMonitor(cfg *config.Config) {
 		}})
 }
 
+// sectionsKeepRaw are taken verbatim from the origin config content,
+// marshal a config.Config will replace all secrets of them with "<secret>"
+var sectionsKeepRaw = []string{"alerting", "remote_write", "remote_read"}
+
 func (i *Injector) marshal(cfg *config.Config) ([]byte, error) {
-	bTokens := make([]string, 0)
-	password := make([]string, 0)
-
-	for _, w := range cfg.RemoteWriteConfigs {
-		if w.HTTPClientConfig.BearerToken != "" {
-			bTokens = append(bTokens, string(w.HTTPClientConfig.BearerToken))
-		}
-
-		if w.HTTPClientConfig.BasicAuth != nil && w.HTTPClientConfig.BasicAuth.Password != "" {
-			password = append(password, string(w.HTTPClientConfig.BasicAuth.Password))
-		}
-
-	}
-
-	for _, w := range cfg.RemoteReadConfigs {
-		if w.HTTPClientConfig.BearerToken != "" {
-			bTokens = append(bTokens, string(w.HTTPClientConfig.BearerToken))
-		}
-
-		if w.HTTPClientConfig.BasicAuth != nil && w.HTTPClientConfig.BasicAuth.Password != "" {
-			password = append(password, string(w.HTTPClientConfig.BasicAuth.Password))
-		}
-	}
-
 	gen, err := yaml.Marshal(&cfg)
 	if err != nil {
 		return nil, errors.Wrapf(err, "marshal config failed")
 	}
 
-	data := string(gen)
-	for _, token := range bTokens {
-		data = strings.Replace(data, "bearer_token: <secret>", fmt.Sprintf("bearer_token: %s", token), 1)
+	out := yaml.MapSlice{}
+	if err := yaml.Unmarshal(gen, &out); err != nil {
+		return nil, errors.Wrapf(err, "unmarshal generated config")
 	}
 
-	for _, pd := range password {
-		data = strings.Replace(data, "password: <secret>", fmt.Sprintf("password: %s", pd), 1)
+	raw := yaml.MapSlice{}
+	if err := yaml.Unmarshal(i.curCfg.RawContent, &raw); err != nil {
+		return nil, errors.Wrapf(err, "unmarshal origin config")
 	}
-	return []byte(data), nil
+
+	for _, item := range raw {
+		key, _ := item.Key.(string)
+		if !types.FindString(key, sectionsKeepRaw...) {
+			continue
+		}
+
+		replaced := false
+		for idx := range out {
+			if out[idx].Key == item.Key {
+				out[idx].Value = item.Value
+				replaced = true
+			}
+		}
+		if !replaced {
+			out = append(out, item)
+		}
+	}
+
+	return yaml.Marshal(out)
 }
 
 func (i *Injector) inject() (err error) {
